@@ -1,11 +1,11 @@
 /-
   C18 (deepening round) — the STATEFUL core of the node-wide HTTP response cache that did:web resolution goes through
   (http/client/caching.go: responseCache.get / insert / removeExpiredEntries / pop, CachingRoundTripper.RoundTrip /
-  cacheResponse).  The Go control flow is mirrored as it is written, including what it does to the linked list:
-  `insert` sets `h.head = entry` whenever the scan did not advance (`current == h.head`), which unlinks the old head
-  while leaving it in `entriesByURL` and in `currentSizeBytes`; the make-room loop `for size+len >= max { pop() }`
-  does not terminate once the list is empty (outcome `hang`).  Pointer identity of `*cacheEntry` = `id` (allocation
-  order).  `entriesByURL` (map URL-string -> slice) is kept flattened in append order: the slice of a key is the
+  cacheResponse), as REPAIRED by /repo commit b991549 (before: `insert` replaced the head of the expiry list whenever its
+  scan did not advance, orphaning the old head in `entriesByURL`/`currentSizeBytes` for ever, and the make-room loop
+  `for size+len >= max { pop() }` span for ever once the list was empty — `RCacheOld` in NutsProofs keeps that code and
+  the witnesses).  The Go control flow is mirrored statement by statement; every loop is a structural recursion over
+  the expiry list (the calls terminate).  Pointer identity of `*cacheEntry` = `id` (allocation order).  `entriesByURL` (map URL-string -> slice) is kept flattened in append order: the slice of a key is the
   sub-list with that key, in order.  Time is an `Int` (any unit), `Before` is `<`.  Core Lean only.
 -/
 import NutsModel.C18.Cache
@@ -40,50 +40,45 @@ def RCache.pop (c : RCache) : RCache :=
   | [] => c
   | h :: t => { c with all := eraseEntry h c.all, size := c.size - (h.size : Int), list := t }
 
-/-- `removeExpiredEntries` (fuel = length of the list: every round pops one element) -/
-def removeExpiredN (now : Int) : Nat → RCache → RCache
-  | 0, c => c
-  | n + 1, c =>
-    match c.list with
-    | [] => c
-    | h :: _ => if h.exp < now then removeExpiredN now n c.pop else c
+/-- `for h.head != nil && cond(h.head, h.currentSizeBytes) { h.pop() }` on the three fields `pop` touches: the shape of
+    both loops of the cache (prune expired entries; make room).  Structural in the list: it terminates. -/
+def popWhile (p : CEntry → Int → Bool) : List CEntry → List CEntry → Int → List CEntry × List CEntry × Int
+  | [], all, size => ([], all, size)
+  | h :: t, all, size => if p h size then popWhile p t (eraseEntry h all) (size - (h.size : Int)) else (h :: t, all, size)
 
-def RCache.removeExpired (c : RCache) (now : Int) : RCache := removeExpiredN now c.list.length c
+def RCache.popWhile (c : RCache) (p : CEntry → Int → Bool) : RCache :=
+  let r := Nuts.C18.popWhile p c.list c.all c.size
+  { c with list := r.1, all := r.2.1, size := r.2.2 }
+
+/-- `removeExpiredEntries`: `for current != nil { if current.expirationTime.Before(now) { current = h.pop() } else break }` -/
+def RCache.removeExpired (c : RCache) (now : Int) : RCache := c.popWhile (fun h _ => h.exp < now)
 
 /-- `get`: prune, then the first entry of the URL's slice with the request's method and raw query -/
 def RCache.get (c : RCache) (now : Int) (key method query : Bytes) : RCache × Option CEntry :=
   let c' := c.removeExpired now
   (c', (c'.all.filter (fun e => e.key = key)).find? (fun e => e.method = method ∧ e.query = query))
 
-/-- `for h.currentSizeBytes+len(entry.responseData) >= h.maxBytes { _ = h.pop() }`; with an empty list `pop` changes
-    nothing and the loop spins for ever: `hang` -/
-def makeRoomN (need : Int) : Nat → RCache → Res RCache
-  | 0, c => if c.size + need ≥ c.maxBytes then .err "hang" else .ok c
-  | n + 1, c =>
-    if c.size + need ≥ c.maxBytes then
-      match c.list with
-      | [] => .err "hang"
-      | _ :: _ => makeRoomN need n c.pop
-    else .ok c
+/-- `for h.head != nil && h.currentSizeBytes+len(entry.responseData) > h.maxBytes { _ = h.pop() }` -/
+def RCache.makeRoom (c : RCache) (need : Int) : RCache := c.popWhile (fun _ size => size + need > c.maxBytes)
 
-/-- the linked-list part of `insert` -/
+/-- `for current.next != nil && current.next.expirationTime.Before(entry.expirationTime) { current = current.next }`,
+    then `entry.next = current.next; current.next = entry` — the argument is `current.next` -/
+def linkAfter (e : CEntry) : List CEntry → List CEntry
+  | [] => [e]
+  | x :: xs => if x.exp < e.exp then x :: linkAfter e xs else e :: x :: xs
+
+/-- the linked-list part of `insert`: new head when the list is empty or the entry expires before the head -/
 def linkIn (e : CEntry) : List CEntry → List CEntry
   | [] => [e]
-  | h :: t =>
-    let pre := t.takeWhile (fun x => x.exp < e.exp)     -- `current` advances over these
-    let post := t.dropWhile (fun x => x.exp < e.exp)
-    if pre = [] then e :: t                              -- `current == h.head`: `h.head = entry`, `entry.next = head.next`
-    else h :: (pre ++ e :: post)
+  | h :: t => if e.exp < h.exp then e :: h :: t else h :: linkAfter e t
 
-/-- `insert` (the entry gets the next pointer identity whether or not it is kept) -/
-def RCache.insert (c : RCache) (key method query : Bytes) (size : Nat) (exp : Int) : Res RCache :=
+/-- `insert` (the entry gets the next pointer identity whether or not it is kept).  A total function: it returns. -/
+def RCache.insert (c : RCache) (key method query : Bytes) (size : Nat) (exp : Int) : RCache :=
   let e : CEntry := { id := c.nextId, key := key, method := method, query := query, size := size, exp := exp }
   let c := { c with nextId := c.nextId + 1 }
-  if (size : Int) > c.maxBytes then .ok c else
-  match makeRoomN size c.list.length c with
-  | .ok c' => .ok { c' with list := linkIn e c'.list, all := c'.all ++ [e], size := c'.size + (size : Int) }
-  | .err x => .err x
-  | .panic p => .panic p
+  if (size : Int) > c.maxBytes then c else
+  let c' := c.makeRoom size
+  { c' with list := linkIn e c'.list, all := c'.all ++ [e], size := c'.size + (size : Int) }
 
 /-- what the wrapped transport (and `cachecontrol.CachableResponse` on its answer) said: library verdicts -/
 inductive Inner where
@@ -92,7 +87,7 @@ inductive Inner where
   deriving Repr, DecidableEq, Inhabited
 
 inductive RTOut where
-  | hit (e : CEntry) | net (stored : Bool) | netErr | hang
+  | hit (e : CEntry) | net (stored : Bool) | netErr
   deriving Repr, DecidableEq, Inhabited
 
 def sGET : Bytes := [71, 69, 84]
@@ -107,9 +102,8 @@ def RCache.rtMiss (c1 : RCache) (now maxCache : Int) (key method query : Bytes) 
     | none => (c1, .net false)
     | some t =>
       let t' := if t > now + maxCache then now + maxCache else t
-      match c1.insert key method query size t' with
-      | .ok c2 => (c2, .net (c2.all.any (fun e => e.id = c1.nextId)))
-      | _ => (c1, .hang)
+      let c2 := c1.insert key method query size t'
+      (c2, .net (c2.all.any (fun e => e.id = c1.nextId)))
 
 /-- `CachingRoundTripper.RoundTrip` -/
 def RCache.roundTrip (c : RCache) (now maxCache : Int) (key method query : Bytes) (inner : Inner) : RCache × RTOut :=
@@ -127,16 +121,16 @@ inductive COp where
   | roundTrip (now maxCache : Int) (key method query : Bytes) (inner : Inner)
   deriving Repr, DecidableEq, Inhabited
 
-/-- one operation; `none` = the call does not return (`hang`) -/
-def RCache.step (c : RCache) : COp → Option RCache
-  | .get now k m q => some (c.get now k m q).1
-  | .insert k m q s t => match c.insert k m q s t with | .ok c' => some c' | _ => none
-  | .pop => some c.pop
-  | .roundTrip now mc k m q i => match c.roundTrip now mc k m q i with | (_, .hang) => none | (c', _) => some c'
+/-- one operation (every call returns) -/
+def RCache.step (c : RCache) : COp → RCache
+  | .get now k m q => (c.get now k m q).1
+  | .insert k m q s t => c.insert k m q s t
+  | .pop => c.pop
+  | .roundTrip now mc k m q i => (c.roundTrip now mc k m q i).1
 
-def RCache.run (c : RCache) : List COp → Option RCache
-  | [] => some c
-  | o :: os => match c.step o with | some c' => c'.run os | none => none
+def RCache.run (c : RCache) : List COp → RCache
+  | [] => c
+  | o :: os => (c.step o).run os
 
 def RCache.new (maxBytes : Int) : RCache := { maxBytes := maxBytes }
 
